@@ -120,7 +120,7 @@ def first_diff(a, b, tol=1e-9):
             for p_, q_ in zip(uu, vv):
                 if (p_ is None) != (q_ is None):
                     return f"{key}[{i}]", u, v
-                if p_ is not None and not (abs(p_ - q_) <= tol or (math.isnan(p_) and math.isnan(q_))):
+                if p_ is not None and not (abs(p_ - q_) <= tol * max(1.0, abs(q_)) or (math.isnan(p_) and math.isnan(q_))):
                     return f"{key}[{i}]", u, v
     return None
 
@@ -315,12 +315,12 @@ class History:
             v = float(f[i])
             if v == -1:
                 continue
-            if abs(be.tension - v) > 1e-12:
+            if abs(be.tension - v) > 1e-12 * max(1.0, abs(v)):
                 self.fail("interface-tension-mismatch", observed=float(be.tension), expected=v,
                           detail={"frame": t, "i": i})
                 return False
             for eid in be.edges:
-                if abs(frame.edges[eid].tension - v) > 1e-12:
+                if abs(frame.edges[eid].tension - v) > 1e-12 * max(1.0, abs(v)):
                     self.fail("mesh-edge-tension-mismatch", observed=float(frame.edges[eid].tension), expected=v,
                               detail={"frame": t, "i": i})
                     return False
